@@ -110,7 +110,7 @@ def main():
             res.append(run(c))
         except Exception as e:
             res.append({"err": type(e).__name__, "msg": str(e)[:300], "tb": traceback.format_exc()[-800:]})
-        if len(res) % 25 == 0:
+        if len(res) % 25 == 0 or len(cases) <= 60:
             json.dump(res, open(sys.argv[2], "w"))
     json.dump(res, open(sys.argv[2], "w"))
 
